@@ -12,6 +12,7 @@ META = {
     "property_id": "C01",
     "technique": "Lean 4 model of Finder / TemplateCore::parse / render with checked semantics (every read, slice and index is an Except-Fault accessor) + model/implementation correspondence on grammar-generated templates, a malformed stream (truncation at every offset, delimiter edits, splices, fragment soup, field-width boundaries, deep nesting) and value trees of all kinds, in four character widths, on exact-size heap buffers under ASan/UBSan/LSan",
     "level": "proof",
+    "theorem": "Qentem.Props.C01.render_safe: for every content with length + 16 < 2^32 (SizeT), every value, formatter, escape switch, sort and group function: parse followed by render makes no out-of-range access; Qentem.Props.C01.parse_wf: the tag tree is well-formed. Side condition = the 32-bit SizeT of the code; proved for the code with 0a7719b/bce4ef4 (false without them: notes/witness-iif-startid.txt)",
     "design_ref": "DESIGN.md §6 C01",
     "text": "The same template text and value go to the real code (Template::Render on an exact-size buffer; ASan+UBSan+LSan, per-batch timeout) and to the compiled Lean model; the rendered text and the parsed tag tree must be identical, and the real code must never produce a sanitizer report, a signal or a hang.  Any fault of the real code is a C01 failure with the input line and the sanitizer stack as replay.",
     "note": "Trusted: Lean kernel for the theorems; g++ as translator of the pattern tables; the harness; ASan/UBSan semantics of 'fault'.  Compared domain: integer-valued math, group= through the GroupBy model of C18, no sort= (the model driver does not format reals nor sort); those constructs are still run on the real code for faults (stream g3).",
@@ -20,9 +21,8 @@ META = {
 THEOREMS = ["Qentem.Props.C01." + t for t in [
     "tables_width_independent", "finder_safe_total", "expr_scan_safe", "render_safe_of_wf",
     "parse_wf_varraw", "render_safe_varraw", "parse_wf_inline", "render_safe_inline",
-    "parse_text", "render_text", "checkLoopVariable_safe", "expr_scan_total", "parse_wf_loops", "render_safe_loops", "finder_facts", "parse_wf_blocks", "render_safe_blocks"]]
-OPEN_STATEMENTS = ["Qentem.Props.C01.ParseWF (what parse returns is well-formed) for contents with inline-if / svar tags (loops and multi-line if are proved: parse_wf_blocks): evaluated per run through the driver op tplwf on every generated template",
-                   "Qentem.Props.C01.ParseSafe / RenderSafe for those contents: decided per run by the sanitizer streams and the model correspondence"]
+    "parse_text", "render_text", "checkLoopVariable_safe", "expr_scan_total", "parse_wf_loops", "render_safe_loops", "finder_facts", "parse_wf_blocks", "render_safe_blocks", "parse_wf", "parse_wf_ok", "render_safe"]]
+OPEN_STATEMENTS = ["Qentem.Props.C01.ParseSafe / RenderSafe as totality statements (the model's recursion fuel 2n+4 / the render fuel is never exhausted): not proved; parse_wf / render_safe show that fuel is the only way the model can fail, and every run of this check observes termination"]
 
 # Work-around (vlib/core.py is shared and not edited here): core.classify_fault compares rc < 0
 # before it tests rc == "timeout", which raises TypeError on a timed-out batch.
